@@ -99,11 +99,28 @@ def monitor_cases(rng, tier, stats):
             cplx = False
             dt = tn.float64
             fam = "/interior-singleton"
+        nswp = 30
+        if c % 8 == 1:
+            # structured family: the sweep budget is exhausted (nswp 1..3) but the user-supplied guess already is the product, so the last
+            # allowed sweep (which takes its own branch: no rank kick) must hand it back within eps
+            routine = ["fast_matvec", "dmrg_hadamard"][(c // 8) % 2]
+            cplx = (c // 16) % 2 == 1
+            dt = tn.complex128 if cplx else tn.float64
+            d = rng.choice([2, 3, 4])
+            N = [rng.randint(2, 4) for _ in range(d)]
+            M = [rng.randint(2, 4) for _ in range(d)]
+            RA = [1] + [rng.randint(1, 3) for _ in range(d - 1)] + [1]
+            Rx = [1] + [rng.randint(2, 3) for _ in range(d - 1)] + [1]
+            eps = 10.0 ** rng.uniform(-10, -4)
+            decay = False
+            guess = "exact"
+            nswp = rng.choice([1, 2, 3])
+            fam = "/exact-guess-nswp%d" % nswp
         seed = rng.randrange(1 << 30)
         label = "%s/d%d/%s%s%s%s" % (routine, d, "c128" if cplx else "f64", "/decay" if decay else "", "/guess" if guess else "", fam)
         box = {}
 
-        def impl(routine=routine, d=d, N=N, M=M, dt=dt, eps=eps, decay=decay, RA=RA, Rx=Rx, guess=guess, seed=seed, box=box, label=label):
+        def impl(routine=routine, d=d, N=N, M=M, dt=dt, eps=eps, decay=decay, RA=RA, Rx=Rx, guess=guess, seed=seed, box=box, label=label, nswp=nswp):
             tn.manual_seed(seed)
             np.random.seed(seed % (2 ** 32))
             A = torchtt.TT(rnd_cores(rng, [[RA[k], M[k], N[k], RA[k + 1]] for k in range(d)], dt, decay))
@@ -111,13 +128,17 @@ def monitor_cases(rng, tier, stats):
             gr = [1] + [rng.randint(1, 5) for _ in range(d - 1)] + [1]
             if routine == "fast_matvec":
                 g = torchtt.TT(rnd_cores(rng, [[gr[k], M[k], gr[k + 1]] for k in range(d)], dt, False)) if guess else None
-                y = A.fast_matvec(x, eps=eps, initial=g, nswp=30, use_cpp=False)
+                if guess == "exact":
+                    g = (A @ x).round(1e-14)
+                y = A.fast_matvec(x, eps=eps, initial=g, nswp=nswp, use_cpp=False)
                 exact = dense_of(A).reshape(int(np.prod(M)), -1) @ dense_of(x).reshape(-1)
                 got = dense_of(y).reshape(-1) if isinstance(y, torchtt.TT) and list(y.N) == M and not y.is_ttm else None
             elif routine == "dmrg_hadamard":
                 y2 = torchtt.TT(rnd_cores(rng, [[RA[k], N[k], RA[k + 1]] for k in range(d)], dt, decay))
                 g = torchtt.TT(rnd_cores(rng, [[gr[k], N[k], gr[k + 1]] for k in range(d)], dt, False)) if guess else None
-                y = torchtt.dmrg_hadamard(x, y2, z0=g, eps=eps, nswp=30, use_cpp=False)
+                if guess == "exact":
+                    g = (x * y2).round(1e-14)
+                y = torchtt.dmrg_hadamard(x, y2, z0=g, eps=eps, nswp=nswp, use_cpp=False)
                 exact = (dense_of(x) * dense_of(y2)).reshape(-1)
                 got = dense_of(y).reshape(-1) if isinstance(y, torchtt.TT) and list(y.N) == N and not y.is_ttm else None
             elif routine == "amen_mv":
@@ -163,6 +184,7 @@ def trace_cases(res, rng, tier):
     from common import run_driver, parse_num
     pts = {"bck": "Phis[k] = Phi", "super": "b = tn.linalg.norm(W)", "fwd": "Phis[k+1] = Phi_next+0"}
     lines, expect, labels = [], [], []
+    split_bad = []
     n_runs = 6 if tier == "quick" else 40
     broken = []
     for c in range(n_runs):
@@ -193,6 +215,21 @@ def trace_cases(res, rng, tier):
                 lines.append(J("dmrgbck", kind, dense_tokens(loc["Phis"][k + 1]), core_tokens(loc["y_cores"][k]), core_tokens(op[k]), core_tokens(xc[k])))
                 expect.append(loc["Phi"].detach().clone()); labels.append(label + "/phi_bck")
             elif name == "fwd":
+                # glue after the truncated SVD (also on the last sweep, which takes its own branch): the two new cores multiply back to the
+                # rank-r truncation of the supercore, for the r that was kept (with or without the kick columns, which meet zeros)
+                yk, yk1 = loc["y_cores"][k], loc["y_cores"][k + 1]
+                Wc = tn.conj(loc["W"]).reshape(loc["W"].shape[0] * loc["W"].shape[1], -1)
+                U_, S_, V_ = loc["U"], loc["S"], loc["V"]
+                prod = tn.einsum('amb,bnc->amnc', yk, yk1).reshape(Wc.shape) if yk.shape[2] == yk1.shape[0] else None
+                okk = False
+                if prod is not None:
+                    for r in range(1, int(S_.shape[0]) + 1):      # the kept rank is not stored; a reduced QR of the kick can hide it
+                        if True:
+                            Tr = tn.conj((U_[:, :r] * S_[:r]) @ V_[:r, :])
+                            if float(tn.linalg.norm(prod - Tr)) <= 1e-9 * max(1.0, float(tn.linalg.norm(Wc))):
+                                okk = True
+                if not okk:
+                    split_bad.append("%s: after the split at bond %d (sweep %d) the cores y[k], y[k+1] do not multiply to the truncated supercore" % (label, k, loc.get("i", -1)))
                 lines.append(J("dmrgfwd", kind, dense_tokens(loc["Phis"][k]), core_tokens(loc["y_cores"][k]), core_tokens(op[k]), core_tokens(xc[k])))
                 expect.append(loc["Phi_next"].detach().clone()); labels.append(label + "/phi_fwd")
             elif name == "super" and not loc["last"]:
@@ -218,6 +255,9 @@ def trace_cases(res, rng, tier):
                 fn(*args, nswp=2, eps=1e-10, kickrank=2)
         except Exception as e:
             broken.append("%s raised under tracing: %s" % (fn.__name__, type(e).__name__))
+    for b in split_bad[:3]:
+        res.violation({"property": "C11", "kind": "correspondence", "class": "dmrg-inline/split", "case": b, "impl_outcome": b,
+                       "model_outcome": "y[k]·y[k+1] = U_r S_r V_r (truncated SVD of the supercore)", "note": "glue between the SVD and the stored cores"}, no_input=True)
     for b in broken:
         res.violation({"property": "C11", "kind": "correspondence", "class": "dmrg-inline/trace", "case": b, "impl_outcome": b,
                        "model_outcome": "observation points of the inline kernels", "note": "the inline-kernel tie of _dmrg.py cannot be established"}, no_input=True)
